@@ -20,7 +20,7 @@ Property oracle (real objects only, after every call, failing calls included):
   * indexes: `cache.indexes[pk]` equals {pk: obj} over the session's objects that hold a primary key (not cancelled /
     flushed-deleted); `cache.indexes[key]` equals {current value: obj} over the non-deleted objects whose key value has no None.
 """
-import pickle, random, sys, types, json
+import pickle, random, signal, sys, types, json
 from pony.orm import db_session, flush, commit, rollback, select, ObjectNotFound
 from pony.orm import core
 
@@ -106,7 +106,11 @@ class World:
         # the model's schema is read back from the real classes
         self.keys = [[self.attrs.index(a)] for a in E0._simple_keys_] + [[self.attrs.index(a) for a in k] for k in E0._composite_keys_]
         self.key_objs = [a for a in E0._simple_keys_] + [k for k in E0._composite_keys_]      # keys of cache.indexes
-        self.model_schema = {'nattrs': n, 'keys': self.keys, 'parent': parents}
+        # does a subclass number the read/write bits of its base's attributes differently (then a modified base-class stub cannot
+        # be refined: NotImplementedError in _get_from_identity_map_)
+        differ = any(sub._bits_.get(attr) != bit for base in self.classes for sub in self.classes
+                     if sub is not base and issubclass(sub, base) for attr, bit in base._bits_.items())
+        self.model_schema = {'nattrs': n, 'keys': self.keys, 'parent': parents, 'classBitsDiffer': bool(differ)}
         self.table = E0._table_
         self.pk_cols = [c for a in self.pk_attrs for c in a.columns]
         self.hier = len(parents) > 1
@@ -252,8 +256,13 @@ class World:
         return res
 
     def call(self, f):
+        # a watchdog: a real call that blocks (a lock that was never released) is reported as an outcome, not waited for
+        def on_alarm(signum, frame): raise CallTimedOut('the call did not return within 20 s')
+        old = signal.signal(signal.SIGALRM, on_alarm); signal.setitimer(signal.ITIMER_REAL, 20)
         try: return None, f()
         except Exception as e: return type(e).__name__, e
+        finally:
+            signal.setitimer(signal.ITIMER_REAL, 0); signal.signal(signal.SIGALRM, old)
 
     def obj(self, i):
         if not isinstance(i, int) or i < 0 or i >= len(self.objs): raise StaleOp()
@@ -667,6 +676,9 @@ class World:
 
 
 class StaleOp(Exception):
+    pass
+
+class CallTimedOut(Exception):
     pass
 
 # ---------------------------------------------------------------- histories
